@@ -12,6 +12,12 @@
 #include "hcommon.h"
 #include <unistd.h>
 
+/* receiving side: bdat_rx.c (qsmtpd/data.c) + bdat_net.c (lib/netio.c) */
+extern void rx_run_case(int nf, unsigned char **fp, size_t *fl);
+void hx_out_str(const char *s) { out_str(s); }
+void hx_out_hex(const void *p, size_t l) { out_hex(p, l); }
+void hx_out_int(long v) { out_int(v); }
+
 static void *h_malloc(size_t n)
 {
 	void *p = malloc(n);
@@ -19,6 +25,7 @@ static void *h_malloc(size_t n)
 	return p;
 }
 #define malloc(n) h_malloc(n)
+#define netnwrite tx_netnwrite		/* the real netnwrite (lib/netio.c) is linked for the receiving side */
 #ifndef CHUNKING
 #define CHUNKING
 #endif
@@ -76,6 +83,11 @@ static void run_case(int nf, struct field *f)
 		} else out_str(h_final ? " ABORTLATE" : " ABORT");
 		if (h_badstatus) out_str(" BADSTATUS");
 		out_str(" LOG"); out_int(h_logs);
+	} else if (f[0].p[0] == 0xbb) {
+		unsigned char **fp = malloc(nf * sizeof(*fp)); size_t *fl = malloc(nf * sizeof(*fl));
+		for (int i = 0; i < nf; i++) { fp[i] = f[i].p; fl[i] = f[i].len; }
+		rx_run_case(nf, fp, fl);
+		free(fp); free(fl);
 	} else out_str("BADCASE");
 }
 
